@@ -2,7 +2,7 @@ SPECIFICATION GenSpec
 CONSTANTS FailFastOn = "anyerr"
  FlattenPrefer = "real"
  SkipCancelled = TRUE
- CancelDrains = FALSE
+ CancelDrains = "no"
  ExtraWorkers = 0
  WorkersG = {1, 2, 3}
  BufsG = {0, 1, 2}
